@@ -107,4 +107,103 @@ theorem combine_pointwise (op : CombOp) (sc : Rat) (a b : List Row) (i : Nat) (p
 
 example : (ibi 2 [⟨0, 1, 'i', 0⟩, ⟨1, 2, 'i', 3⟩, ⟨1, 1, 'i', 0⟩, ⟨0, 0, 'i', 0⟩]) = [(6, 'o'), (6, 'i'), (0, 'i'), (0, 'o')] := by decide +kernel
 
+/-! ## table_extrapolate.pl -/
+
+/-- every extrapolating function passes through the anchor point (the first / last in-range point), for every `ew` with `ew 0 = 1` -/
+theorem extrapolation_through_anchor (fn : ExFun) (curv x0 y0 m : Rat) (ew : Rat → Rat) (hew : ew 0 = 1)
+    (hd : exDefined fn curv y0 m = true) : exVal fn curv x0 y0 m x0 ew = y0 := by
+  cases fn <;> simp only [exVal, exDefined, bne_iff_ne, ne_eq, Bool.and_eq_true] at hd ⊢
+  · ring
+  · have hc : curv ≠ 0 := hd
+    field_simp
+    ring
+  · obtain ⟨hy, hm⟩ := hd
+    field_simp
+    ring
+  · ring
+  · have hy : y0 ≠ 0 := hd
+    have : m * (x0 - x0) / y0 = 0 := by simp
+    rw [this, hew]; ring
+
+/-- the quadratic and the `sasha` parabola have slope `m` at the anchor: the symmetric difference quotient of a parabola is its
+    derivative, for every step `h ≠ 0` -/
+theorem quadratic_slope_at_anchor (curv x0 y0 m h : Rat) (ew : Rat → Rat) (hc : curv ≠ 0) (hh : h ≠ 0) :
+    (exVal .quadratic curv x0 y0 m (x0 + h) ew - exVal .quadratic curv x0 y0 m (x0 - h) ew) / (2 * h) = m := by
+  simp only [exVal]
+  field_simp
+  ring
+
+theorem sasha_slope_at_anchor (curv x0 y0 m h : Rat) (ew : Rat → Rat) (hy : y0 ≠ 0) (hm : m ≠ 0) (hh : h ≠ 0) :
+    (exVal .sasha curv x0 y0 m (x0 + h) ew - exVal .sasha curv x0 y0 m (x0 - h) ew) / (2 * h) = m := by
+  simp only [exVal]
+  field_simp
+  ring
+
+/-- the quadratic form has the requested curvature: constant second difference `2 C h²` -/
+theorem quadratic_curvature (curv x0 y0 m x h : Rat) (ew : Rat → Rat) (hc : curv ≠ 0) :
+    exVal .quadratic curv x0 y0 m (x + h) ew - 2 * exVal .quadratic curv x0 y0 m x ew + exVal .quadratic curv x0 y0 m (x - h) ew
+      = 2 * curv * h * h := by
+  simp only [exVal]
+  field_simp
+  ring
+
+/-- linear (and periodic) extrapolation is the straight line of the help text -/
+theorem linear_is_line (curv x0 y0 m x : Rat) (ew : Rat → Rat) :
+    exVal .linear curv x0 y0 m x ew = m * x + (-m * x0 + y0) ∧ exVal .periodic curv x0 y0 m x ew = exVal .linear curv x0 y0 m x ew := by
+  simp only [exVal]; constructor
+  · ring
+  · trivial
+
+theorem fillWhere_length (p : Nat → Bool) (g : Row → Row) (rows : List Row) : (fillWhere p g rows).length = rows.length := by
+  simp [fillWhere]
+
+theorem fillWhere_get (p : Nat → Bool) (g : Row → Row) (rows : List Row) (i : Nat) :
+    (fillWhere p g rows)[i]? = (rows[i]?).map fun r => if p i then g r else r := by
+  simp only [fillWhere, List.getElem?_map, List.getElem?_zipIdx]
+  cases rows[i]? <;> simp
+
+/-- what an extrapolation pass that succeeds has done: the anchor row exists, the script did not divide by zero, and exactly the
+    rows before the first in-range point were replaced by extrapolated rows -/
+theorem exLeft_some (o : ExOpts) (ew : Rat → Rat) (rows out : List Row) (h : exLeft o ew rows = some out) :
+    ∃ r0 m, rows[firstIn rows]? = some r0 ∧ exDefined o.fn o.curv r0.y m = true ∧
+      out = fillWhere (fun i => decide (i < firstIn rows)) (exRow o r0.x r0.y m ew) rows := by
+  unfold exLeft at h
+  cases h0 : rows[firstIn rows]? with
+  | none => simp [h0] at h
+  | some r0 =>
+    cases h1 : rows[firstIn rows + o.avg]? with
+    | none => simp [h0, h1] at h
+    | some r1 =>
+      simp only [h0, h1] at h
+      by_cases hc : (o.fn != ExFun.constant && r1.x == r0.x) = true
+      · rw [if_pos hc] at h; cases h
+      · rw [if_neg hc] at h
+        generalize (if (o.fn == ExFun.constant) = true then (0 : Rat) else (r1.y - r0.y) / (r1.x - r0.x)) = m at h
+        by_cases hd : (!exDefined o.fn o.curv r0.y m) = true
+        · simp only [hd, if_true] at h; cases h
+        · simp only [hd, Bool.false_eq_true, if_false] at h
+          refine ⟨r0, m, rfl, by simpa using hd, (Option.some.inj h).symm⟩
+
+/-- left extrapolation keeps the row count and the grid, leaves every row from the first in-range point on untouched, and every
+    row before it becomes an extrapolated row with the same abscissa, flagged in range unless `--no-flagupdate` -/
+theorem exLeft_spec (o : ExOpts) (ew : Rat → Rat) (rows out : List Row) (h : exLeft o ew rows = some out) :
+    out.length = rows.length ∧
+    (∀ i, firstIn rows ≤ i → out[i]? = rows[i]?) ∧
+    (∀ i r, i < firstIn rows → rows[i]? = some r → ∃ r2, out[i]? = some r2 ∧ r2.x = r.x ∧ r2.flag = (if o.flagUpdate then 'i' else r.flag)) := by
+  obtain ⟨r0, m, _, _, rfl⟩ := exLeft_some o ew rows out h
+  refine ⟨fillWhere_length _ _ _, ?_, ?_⟩
+  · intro i hi
+    rw [fillWhere_get]
+    have : decide (i < firstIn rows) = false := by simp; omega
+    cases rows[i]? <;> simp [this]
+  · intro i r hi hr
+    rw [fillWhere_get, hr]
+    have : decide (i < firstIn rows) = true := by simpa using hi
+    refine ⟨exRow o r0.x r0.y m ew r, by simp [this], rfl, rfl⟩
+
+/-! non-vacuity: a table with two out-of-range points on the left, linear extrapolation with `--avgpoints 1` -/
+example : (exLeft { fn := .linear, avg := 1, curv := 10000, left := true, right := false, flagUpdate := true } (fun _ => 1)
+    [⟨0, 9, 'o'⟩, ⟨1, 9, 'u'⟩, ⟨2, 5, 'i'⟩, ⟨3, 3, 'i'⟩]).map (fun l => l.map fun r => (r.y, r.flag)) = some [(9, 'i'), (7, 'i'), (5, 'i'), (3, 'i')] := by
+  decide +kernel
+
 end Votca.C19
